@@ -248,3 +248,215 @@ Proof.
   intros H1 H2 H3 H4. apply plain_call_leaves_receiver_unchanged.
   apply respects_binop_body; try assumption. apply binop_writes_fresh.
 Qed.
+
+(* ================= (d) installing an array produced under other labels ========== *)
+Lemma mem_In i l : mem i l = true <-> In i l.
+Proof.
+  unfold mem. rewrite existsb_exists. split.
+  - intros [x [Hx E]]. apply Nat.eqb_eq in E. subst. exact Hx.
+  - intros H. exists i. split; [exact H | apply Nat.eqb_refl].
+Qed.
+
+Lemma mem_false i l : mem i l = false <-> ~ In i l.
+Proof.
+  split.
+  - intros H Hin. apply mem_In in Hin. congruence.
+  - intros H. destruct (mem i l) eqn:E; [apply mem_In in E; contradiction | reflexivity].
+Qed.
+
+Lemma index_of_nth l : NoDup l -> forall k, k < length l -> index_of (nth k l 0) l = k.
+Proof.
+  induction 1 as [|x l Hx ND IH]; intros k Hk; [cbn in Hk; lia|].
+  destruct k as [|k]; cbn [nth index_of].
+  - rewrite Nat.eqb_refl. reflexivity.
+  - cbn [length] in Hk. assert (Hk' : k < length l) by lia.
+    destruct (Nat.eqb x (nth k l 0)) eqn:E.
+    + apply Nat.eqb_eq in E. exfalso. apply Hx. rewrite E. apply nth_In. exact Hk'.
+    + f_equal. apply IH. exact Hk'.
+Qed.
+
+Lemma index_of_inj l i j : In i l -> In j l -> index_of i l = index_of j l -> i = j.
+Proof.
+  intros Hi Hj E. destruct (index_of_spec i l Hi) as [_ Ni]. destruct (index_of_spec j l Hj) as [_ Nj].
+  rewrite <- Ni, <- Nj, E. reflexivity.
+Qed.
+
+Lemma NoDup_map_inj_in {A B} (f : A -> B) l : NoDup l ->
+  (forall x y, In x l -> In y l -> f x = f y -> x = y) -> NoDup (map f l).
+Proof.
+  induction 1 as [|x l Hx ND IH]; intros Hinj; cbn [map]; constructor.
+  - intros Hin. apply in_map_iff in Hin. destruct Hin as [y [E Hy]].
+    apply Hx. rewrite (Hinj x y); [exact Hy | left; reflexivity | right; exact Hy | symmetry; exact E].
+  - apply IH. intros a b Ha Hb. apply Hinj; right; assumption.
+Qed.
+
+Lemma same_members_same_length (l l' : list nat) : NoDup l -> NoDup l' -> (forall i, In i l' <-> In i l) -> length l' = length l.
+Proof.
+  intros N N' H. apply Nat.le_antisymm; apply NoDup_incl_length; try assumption; intros i Hi; apply H; exact Hi.
+Qed.
+
+Lemma perm_like_is_perm src nix : NoDup src -> NoDup nix -> (forall i, In i nix <-> In i src) ->
+  is_perm (perm_like src nix) /\ length (perm_like src nix) = length src.
+Proof.
+  intros NS NN H. pose proof (same_members_same_length src nix NS NN H) as HL.
+  assert (HLp : length (perm_like src nix) = length src) by (unfold perm_like; rewrite map_length; exact HL).
+  split; [|exact HLp]. split.
+  - unfold perm_like. apply NoDup_map_inj_in; [exact NN|].
+    intros x y Hx Hy E. apply (index_of_inj src); [apply H; exact Hx | apply H; exact Hy | exact E].
+  - intros k. rewrite HLp. split.
+    + unfold perm_like. intros Hk. apply in_map_iff in Hk. destruct Hk as [i [E Hi]]. subst k.
+      apply index_of_spec. apply H. exact Hi.
+    + intros Hk. unfold perm_like. apply in_map_iff. exists (nth k src 0). split.
+      * apply index_of_nth; assumption.
+      * apply H. apply nth_In. exact Hk.
+Qed.
+
+Lemma permute_perm_like src nix : (forall i, In i nix -> In i src) -> permute 0 (perm_like src nix) src = nix.
+Proof.
+  intros H. unfold permute, perm_like. rewrite map_map.
+  transitivity (map (fun i : nat => i) nix); [|apply map_id].
+  apply map_ext_in. intros i Hi. apply index_of_spec. apply H. exact Hi.
+Qed.
+
+(* An array produced under the labels `src` and moved by `perm_like src nix` before it is installed under the stored
+   labels `nix` denotes the same labelled tensor - for every rank, shape, and every pair of label orders. *)
+Theorem install_like_same_tval src nix shape data (s : nat -> nat) :
+  NoDup src -> NoDup nix -> (forall i, In i nix <-> In i src) ->
+  length shape = length src -> Forall2 lt (map s src) shape ->
+  tinds G (install_like src nix shape data) = nix /\
+  tval G (install_like src nix shape data) s = tval G (arr_tensor src shape data) s.
+Proof.
+  intros NS NN H HS Hv. destruct (perm_like_is_perm src nix NS NN H) as [HP HL]. split.
+  - unfold install_like, ttranspose, arr_tensor. cbn [tinds]. apply permute_perm_like. intros i Hi. apply H. exact Hi.
+  - unfold install_like. apply transpose_same_tval; assumption.
+Qed.
+
+(* ... and the move is needed: the same array installed as it is under another label order is a different tensor. *)
+Theorem install_raw_is_observable :
+  exists src nix shape data (s : nat -> nat), NoDup src /\ NoDup nix /\ (forall i, In i nix <-> In i src) /\
+    tval G (install_raw nix shape data) s <> tval G (arr_tensor src shape data) s.
+Proof.
+  exists [0; 1], [1; 0], [2; 2], [(1, 0); (2, 0); (3, 0); (4, 0)]%Z, (fun i => i).
+  repeat split.
+  - repeat constructor; cbn; intuition lia.
+  - repeat constructor; cbn; intuition lia.
+  - cbn. intuition.
+  - cbn. intuition.
+  - vm_compute. discriminate.
+Qed.
+
+Lemma existsb_false_all {A} (f : A -> bool) l : existsb f l = false -> forall x, In x l -> f x = false.
+Proof.
+  intros H x Hx. destruct (f x) eqn:E; [|reflexivity].
+  assert (existsb f l = true) by (apply existsb_exists; exists x; split; assumption). congruence.
+Qed.
+
+(* Tensor.transpose_like: the label order it produces is a relabelling-free permutation of the tensor's own labels that
+   agrees with `other` wherever `other`'s label is one of the tensor's. *)
+Theorem like_order_is_permutation src dst nix : NoDup src -> NoDup dst -> length src = length dst ->
+  like_order src dst = Some nix ->
+  NoDup nix /\ (forall i, In i nix <-> In i src) /\ length nix = length dst /\
+  (forall j, j < length dst -> In (nth j dst 0) src -> nth j nix 0 = nth j dst 0).
+Proof.
+  intros NS ND HL. unfold like_order.
+  destruct (filter (fun i => negb (mem i dst)) src) as [|d [|d' rest]] eqn:EF; intros E; inversion E; subst nix; clear E.
+  - (* same label sets *)
+    assert (Hsub : incl src dst).
+    { intros i Hi. destruct (mem i dst) eqn:M; [apply mem_In; exact M|].
+      assert (In i (filter (fun i => negb (mem i dst)) src)) by (apply filter_In; split; [exact Hi | rewrite M; reflexivity]).
+      rewrite EF in H. contradiction. }
+    assert (Hsup : incl dst src) by (apply NoDup_length_incl; [exact NS | lia | exact Hsub]).
+    repeat split; auto.
+  - (* exactly one label `d` of src is missing from dst *)
+    assert (Hd : In d src /\ mem d dst = false).
+    { assert (In d (filter (fun i => negb (mem i dst)) src)) by (rewrite EF; left; reflexivity).
+      apply filter_In in H. destruct H as [H1 H2]. split; [exact H1 | apply negb_true_iff; exact H2]. }
+    destruct Hd as [Hds Hdd].
+    assert (Honly : forall i, In i src -> mem i dst = false -> i = d).
+    { intros i Hi M. assert (In i (filter (fun i => negb (mem i dst)) src)) by (apply filter_In; split; [exact Hi | rewrite M; reflexivity]).
+      rewrite EF in H. destruct H as [H|[]]. symmetry. exact H. }
+    set (f := fun i => if mem i src then i else d).
+    assert (Hlen : length (map f dst) = length dst) by apply map_length.
+    assert (Hin : forall i, In i (map f dst) -> In i src).
+    { intros i Hi. apply in_map_iff in Hi. destruct Hi as [j [Ej Hj]]. subst i. unfold f.
+      destruct (mem j src) eqn:M; [apply mem_In; exact M | exact Hds]. }
+    assert (Hex : exists j, In j dst /\ mem j src = false).
+    { destruct (existsb (fun j => negb (mem j src)) dst) eqn:EX.
+      - apply existsb_exists in EX. destruct EX as [j [Hj Mj]]. exists j. split; [exact Hj | apply negb_true_iff; exact Mj].
+      - exfalso. assert (Hsub : incl dst src).
+        { intros j Hj. pose proof (existsb_false_all _ _ EX j Hj) as M. apply negb_false_iff in M. apply mem_In. exact M. }
+        assert (Hsup : incl src dst) by (apply NoDup_length_incl; [exact ND | lia | exact Hsub]).
+        apply mem_false in Hdd. apply Hdd. apply Hsup. exact Hds. }
+    assert (Hincl : incl src (map f dst)).
+    { intros i Hi. destruct (mem i dst) eqn:M.
+      - apply in_map_iff. exists i. split; [unfold f; apply mem_In in Hi; rewrite Hi; reflexivity | apply mem_In; exact M].
+      - rewrite (Honly i Hi M). destruct Hex as [j [Hj Mj]]. apply in_map_iff. exists j. split; [unfold f; rewrite Mj; reflexivity | exact Hj]. }
+    repeat split.
+    + apply NoDup_incl_NoDup with (l := src); [exact NS | lia | exact Hincl].
+    + apply Hin.
+    + apply Hincl.
+    + exact Hlen.
+    + intros j Hj Hs. rewrite (nth_map_lt f dst j 0 0 Hj). unfold f. apply mem_In in Hs. rewrite Hs. reflexivity.
+Qed.
+
+(* ================= (e) the structured-network sum never writes its operands ========== *)
+Lemma agsum_writes_no_operand inplace n : forall negate,
+  forallb (fun o => negb (is_operand inplace o)) (agsum_writes inplace n negate) = true.
+Proof.
+  unfold agsum_writes. induction n as [|n IH]; intros negate; [reflexivity|].
+  cbn [agsum_loop]. rewrite !forallb_app, IH. destruct negate, inplace; reflexivity.
+Qed.
+
+Theorem agsum_never_writes_second_operand inplace n negate :
+  existsb (owner_eqb OwnB) (agsum_writes inplace n negate) = false.
+Proof.
+  pose proof (agsum_writes_no_operand inplace n negate) as H.
+  destruct (existsb (owner_eqb OwnB) (agsum_writes inplace n negate)) eqn:E; [|reflexivity].
+  apply existsb_exists in E. destruct E as [o [Ho Eo]]. rewrite forallb_forall in H. specialize (H o Ho).
+  destruct o; cbn in Eo; discriminate.
+Qed.
+
+Theorem agsum_plain_writes_no_operand n negate :
+  forallb (fun o => negb (owner_eqb OwnA o || owner_eqb OwnB o)) (agsum_writes false n negate) = true.
+Proof.
+  pose proof (agsum_writes_no_operand false n negate) as H. rewrite forallb_forall in *.
+  intros o Ho. specialize (H o Ho). destruct o; cbn in *; congruence.
+Qed.
+
+(* the slip: relabel (= copy) only when there is something to relabel; the caller's right operand is negated in place *)
+Theorem agsum_without_copy_writes_operand :
+  exists n, existsb (owner_eqb OwnB) (agsum_loop false false n true) = true.
+Proof. exists 1. vm_compute. reflexivity. Qed.
+
+Lemma existsb_eqb_false x l : (forall y, In y l -> x <> y) -> existsb (Nat.eqb x) l = false.
+Proof.
+  intros H. destruct (existsb (Nat.eqb x) l) eqn:E; [|reflexivity].
+  apply existsb_exists in E. destruct E as [y [Hy Ey]]. apply Nat.eqb_eq in Ey. exfalso. exact (H y Hy Ey).
+Qed.
+
+Lemma respects_agsum_body a b r t payload ids refs inplace ws :
+  (forall k o, In o ids -> r k <> o /\ t k <> o /\ (inplace = true -> a k <> o)) ->
+  forallb (fun o => negb (is_operand inplace o)) ws = true ->
+  forall k, forallb (respects ids refs) (agsum_body a b r t payload k ws) = true.
+Proof.
+  intros Hdis. induction ws as [|o ws IH]; intros Hf k; [reflexivity|].
+  cbn [forallb] in Hf. apply andb_true_iff in Hf. destruct Hf as [Ho Hws].
+  cbn [agsum_body forallb]. rewrite (IH Hws). rewrite andb_true_r.
+  unfold respects. cbn [writes_obj writes_arr]. rewrite andb_true_r. apply negb_true_iff. apply existsb_eqb_false.
+  intros y Hy. destruct (Hdis k y Hy) as [Hr [Ht Ha]].
+  destruct o; cbn [agsum_obj]; cbn in Ho.
+  - destruct inplace; [apply Ha; reflexivity | discriminate].
+  - discriminate.
+  - exact Hr.
+  - exact Ht.
+Qed.
+
+(* whatever objects `ids` the caller can see (both operands' tensors for the plain spelling, the right operand's for
+   `a += b` / `a -= b`), provided the result's and the temporaries' objects are others, they are observably unchanged *)
+Theorem agsum_leaves_operands_unchanged h a b r t payload ids inplace n negate :
+  (forall k o, In o ids -> r k <> o /\ t k <> o /\ (inplace = true -> a k <> o)) ->
+  fingerprint (run h (agsum_body a b r t payload 0 (agsum_writes inplace n negate))) ids = fingerprint h ids.
+Proof.
+  intros Hdis. apply plain_call_leaves_receiver_unchanged.
+  apply (respects_agsum_body a b r t payload ids _ inplace); [exact Hdis | apply agsum_writes_no_operand].
+Qed.
